@@ -61,6 +61,11 @@ pub enum Ex {
     DirAll(u8),
     AnyNamed(u8),
     Exact(u8),
+    /// the root-relative path of a directory of the tree, without wildcard: it names the directory
+    /// entry itself and no file below it
+    DirPath(u8),
+    /// `**/<dirname>`: again only directory entries can match
+    AnyDir(u8),
 }
 
 #[derive(Clone, Debug, Serialize, Deserialize)]
@@ -166,7 +171,7 @@ fn tree() -> impl Strategy<Value = Tree> {
     let imp = (0u8..3, prop_oneof![2 => Just(0u8), 3 => Just(1u8), 1 => Just(2u8)], 0u8..7).prop_map(|(kind, level, target)| Imp { kind, level, target });
     let f = (0u8..7, prop_oneof![6 => 0u8..6, 3 => 6u8..12, 5 => 12u8..16], vec(imp, 0..=2), prop_oneof![12 => Just(false), 1 => Just(true)])
         .prop_map(|(dir, name, imports, bad_utf8)| TFile { dir, name, imports, bad_utf8 });
-    let ex = prop_oneof![(0u8..26).prop_map(Ex::DirAll), (0u8..16).prop_map(Ex::AnyNamed), (0u8..12).prop_map(Ex::Exact)];
+    let ex = prop_oneof![3 => (0u8..26).prop_map(Ex::DirAll), 3 => (0u8..16).prop_map(Ex::AnyNamed), 3 => (0u8..12).prop_map(Ex::Exact), 2 => (0u8..8).prop_map(Ex::DirPath), 1 => (0u8..26).prop_map(Ex::AnyDir)];
     (vec(d, 0..=6), vec(f, 1..=10), prop_oneof![2 => Just(vec![]), 1 => vec(ex, 1..=2)]).prop_map(|(mut dirs, mut files, excludes)| {
         for (i, d) in dirs.iter_mut().enumerate() {
             d.parent = if i == 0 { 0 } else { d.parent % (i as u8 + 1) };
@@ -181,12 +186,15 @@ fn tree() -> impl Strategy<Value = Tree> {
 
 pub fn exclude_strings(t: &Tree) -> Vec<String> {
     let files: Vec<String> = t.files_by_rel().keys().cloned().collect();
+    let dirs: Vec<String> = t.all_dirs().into_iter().filter(|d| !d.is_empty()).collect();
     t.excludes
         .iter()
         .map(|e| match e {
             Ex::DirAll(n) => format!("{}/**", dir_name(*n)),
             Ex::AnyNamed(n) => format!("**/{}", file_name(*n)),
             Ex::Exact(k) => files.get(*k as usize % files.len().max(1)).cloned().unwrap_or_else(|| "nothing.py".to_string()),
+            Ex::DirPath(k) => dirs.get(*k as usize % dirs.len().max(1)).cloned().unwrap_or_else(|| "nothing".to_string()),
+            Ex::AnyDir(n) => format!("**/{}", dir_name(*n)),
         })
         .collect()
 }
